@@ -11,6 +11,7 @@ def check(ctx):
     whomay.callback_list_discipline(ctx, 'C02')
     whomay.exception_cloning(ctx, 'C02')
     whomay.step_failures_escape(ctx, 'C02')
+    whomay.raising_callbacks_private(ctx, 'C02')
     whomay.check_writers(ctx, 'C02.W.defused', '_defused', {
         'Event.defused.setter': 'public setter', 'Event.defused': 'public setter', 'Interruption.__init__': 'interrupts are pre-defused',
         'Process._resume': 'the failure is thrown into the process', 'Condition._check': 'the failure is forwarded to the condition'}, 4,
